@@ -23,6 +23,9 @@ where
     fn unset(&mut self, block_number: u64);
     fn reorg(&mut self, latest_valid_block_number: u64);
     fn is_old(&self, block_number: u64) -> bool;
+    /// The stored versions as (block, encoded value) pairs, oldest first (verification hook).
+    #[cfg(feature = "verif-hooks")]
+    fn verif_entries(&self) -> Vec<(u64, Option<Vec<u8>>)>;
 }
 
 impl<V> BlockHistoryCacheData<V>
@@ -139,6 +142,14 @@ where
         } else {
             return true;
         }
+    }
+
+    #[cfg(feature = "verif-hooks")]
+    fn verif_entries(&self) -> Vec<(u64, Option<Vec<u8>>)> {
+        self.cache
+            .iter()
+            .map(|(block, value)| (*block, value.as_ref().map(|v| v.encode_vec())))
+            .collect()
     }
 }
 
